@@ -275,6 +275,12 @@ func Ident(name string, q Quoting) string {
 	case QDouble:
 		return `"` + name + `"`
 	}
+	// a name that is not made of word characters (and dots) cannot be written bare
+	for _, r := range name {
+		if !(r == '_' || r == '.' || r >= '0' && r <= '9' || r >= 'a' && r <= 'z' || r >= 'A' && r <= 'Z') {
+			return "`" + name + "`"
+		}
+	}
 	return name
 }
 
